@@ -835,9 +835,18 @@ def _expand(fn, call, is_method, how, target, line):
   # locals): the helper's locals *are* the caller's variables -- rename them to
   # the targets instead of copying through temporaries
   direct = _direct_targets(fn, body, stores, bound, call, target) if how == 'assign' else None
+  arg_names = [x.id for a_ in bound.values() for x in ast.walk(a_)
+               if isinstance(x, ast.Name)]
   for p, a in bound.items():
     if direct and p in direct:
       continue             # `x = helper(x, ...)`: the parameter is the target itself
+    if how == 'return' and p in stores and isinstance(a, ast.Name) and \
+        arg_names.count(a.id) == 1 and a.id not in stores - {p} and \
+        a.id not in {n.id for n in ast.walk(fn) if isinstance(n, ast.Name)} - {p}:
+      # `return helper(x, ..)`: the caller's x is dead after the call, so the
+      # helper may work on it in place
+      mapping[p] = a.id
+      continue
     if _simple(a) and p not in stores:
       subst[p] = a
     else:
